@@ -232,7 +232,7 @@ func main() {
 	m := c.RunSharded(len(scens), func(i int, j *vlib.Job) {
 		sc := scens[i]
 		maxLeak := int64(-1)
-		st := vsync.ExploreAll(vsync.Options{Bound: sc.Bound, Stop: c.Expired, MaxExec: 200000, Prune: true, SymmetricSpawn: []string{"render.evalRoutines"}}, sc.body(), func(x *vsync.Execution, prefix []int) bool {
+		st := vsync.ExploreAll(vsync.Options{Bound: sc.Bound, Stop: c.Expired, MaxExec: 50000, Prune: true, SymmetricSpawn: []string{"render.evalRoutines"}}, sc.body(), func(x *vsync.Execution, prefix []int) bool {
 			rep := func() scen {
 				r := sc
 				r.Prefix = append([]int{}, x.Choices...)
